@@ -195,8 +195,8 @@ func pathsOf(w []walked) []string {
 
 var c09TreeCfg = h.TreeCfg{
 	MaxEntries: 14, MaxDepth: 4,
-	Kinds:     []h.Kind{h.KFile, h.KFile, h.KFile, h.KSymlink, h.KFifo, h.KChar, h.KBlock, h.KSocket},
-	Xattrs:    true, XattrNS: []string{"user.", "trusted.", "security."},
+	Kinds:  []h.Kind{h.KFile, h.KFile, h.KFile, h.KSymlink, h.KFifo, h.KChar, h.KBlock, h.KSocket},
+	Xattrs: true, XattrNS: []string{"user.", "trusted.", "security."},
 	Hardlinks: true, SpecialLinks: true, LongNames: true, BadUTF8: true,
 }
 
